@@ -62,14 +62,14 @@ Variable fclass : list str -> callclass.
    ast2src prints for s, in the caller's scope rho_caller - is the value s has "in place", i.e. under ANY binding rho_place of the
    query variables and lambda parameters (the names c' of the context at that place) that agrees with the caller's scope elsewhere. *)
 Theorem bound_value : forall ctx e p c' s rho_caller rho_place,
-  wf e = true ->
-  In p (externals fclass ctx e) -> sub_ctx ctx e p = Some (c', s) -> expr_kindb (ekind s) = true ->
+  mwf e = true ->
+  In p (externals fclass ctx e) -> sub_ctx ctx e p = Some (c', s) -> wf s = true -> expr_kindb (ekind s) = true ->
   (forall x, mem x c' = false -> rho_caller x = rho_place x) ->
   exists n, forall f, n <= f -> eval_tokens f (print pony_style s) rho_caller = ceval rho_place s.
 Proof.
-  intros ctx e p c' s r1 r2 Hw Hin Hs Hk Hr.
+  intros ctx e p c' s r1 r2 Hw Hin Hs Hws Hk Hr.
   destruct (externals_sound fclass ctx e p c' s Hw Hin Hs) as [Hm _].
-  destruct (pony_roundtrip s (sub_wf p ctx e c' s Hs Hw) Hk) as [n Hn].
+  destruct (pony_roundtrip s Hws Hk) as [n Hn].
   exists n. intros f Hf. unfold eval_tokens. rewrite (Hn f Hf). apply (ceval_coincidence s c'); assumption.
 Qed.
 
@@ -95,9 +95,25 @@ Definition demo_str : expr :=
   Node (LOp KSubscript) [Node (LOp KTuple) [Node (LOp KAdd) [nmz 110; Node (LConst [39; 101; 39]%Z) []];
                                              Node (LOp KTuple) [nmz 97; Node (LConst [39; 120; 39]%Z) []]]; nmz 98].
 
+(* `p.x in (s.y for s in S if s.z == a + 1 and s.w == p.x)`: inside the subquery the targets of its for-clauses are bound as well;
+   the externals are the iterable S and a + 1 *)
+Definition demo_subquery : expr :=
+  Node (LCompare [CIn]) [Node (LAttribute [120]%Z) [nmz 112];
+    Node (LGen [([[115]%Z], 1%nat)])
+      [nmz 83;
+       Node (LOp KAnd) [Node (LCompare [CEq]) [Node (LAttribute [122]%Z) [nmz 115]; Node (LOp KAdd) [nmz 97; Node (LConst [49]%Z) []]];
+                        Node (LCompare [CEq]) [Node (LAttribute [119]%Z) [nmz 115]; Node (LAttribute [120]%Z) [nmz 112]]];
+       Node (LAttribute [121]%Z) [nmz 115]]].
+
+Lemma demo_subquery_ok :
+  externals (fun _ => FPlain) [[112]%Z] demo_subquery = [[1; 0]; [1; 1; 0; 1]] /\
+  sub_ctx [[112]%Z] demo_subquery [1; 1; 0; 1] = Some ([[115]%Z; [112]%Z], Node (LOp KAdd) [nmz 97; Node (LConst [49]%Z) []]) /\
+  mwf demo_subquery = true /\ wf demo_subquery = false.
+Proof. vm_compute. repeat split; reflexivity. Qed.
+
 Lemma demo_bound :
   externals (fun _ => FPlain) [[112]%Z] demo_query = [[1]] /\ sub_ctx [[112]%Z] demo_query [1] = Some ([[112]%Z], demo_ext) /\
-  wf demo_query = true /\
+  mwf demo_query = true /\ wf demo_ext = true /\
   eval_tokens 40 (print pony_style demo_ext) demo_env = Some (VInt 2) /\
   externals (fun _ => FPlain) [[112]%Z] (Node (LCompare [CEq]) [Node (LAttribute [110]%Z) [nmz 112]; demo_str]) = [[1]] /\
   eval_tokens 60 (print pony_style demo_str) demo_env = Some (VStr [74; 111; 101]%Z).
